@@ -129,7 +129,8 @@ func FileArg(c *rt.GoCont, n int) (*File, error) {
 func ValueToFile(v rt.Value) (*File, bool) {
 	u, ok := v.TryUserData()
 	if ok {
-		return u.Value().(*File), true
+		f, ok := u.Value().(*File)
+		return f, ok
 	}
 	return nil, false
 }
